@@ -12,6 +12,9 @@ import (
 
 // Unit is one verification unit: a function, a case of a switch inside a function, or a closure.
 type Unit struct {
+	inHandler bool
+	handlerLit *ast.FuncLit // the recover handler of the unit, if any
+	caught     []*PanicExit  // panics raised on protected paths (handled)
 	defTag map[string]string // user axiom formula -> axiom block name
 	invTag map[string]string // assumed loop-invariant formula -> loopID#name
 	g       *Gen
@@ -110,7 +113,63 @@ func (u *Unit) panicExit(st *State, cond, why string, n ast.Node) {
 	if n != nil && n.Pos().IsValid() {
 		pos = u.g.P.pos(n)
 	}
-	u.panics = append(u.panics, &PanicExit{pc: append([]string(nil), st.pc...), cond: cond, why: why, pos: pos, st: st.clone()})
+	pe := &PanicExit{pc: append([]string(nil), st.pc...), cond: cond, why: why, pos: pos, st: st.clone()}
+	if _, prot := st.named["$protected"]; prot && !u.inHandler {
+		u.caught = append(u.caught, pe)
+		return
+	}
+	u.panics = append(u.panics, pe)
+}
+
+// topLevelStmt: is s a statement of the function body's top-level list?
+func (u *Unit) topLevelStmt(s ast.Stmt) bool {
+	if u.fd == nil || u.fd.Body == nil {
+		return false
+	}
+	for _, t := range u.fd.Body.List {
+		if t == s {
+			return true
+		}
+	}
+	return false
+}
+
+// runHandler executes the recover handler from the state of every caught panic: its normal
+// completion is a normal return of the function (named results as assigned by the handler), a
+// panic inside it escapes.
+func (u *Unit) runHandler(flow Flow) {
+	if u.handlerLit == nil {
+		return
+	}
+	caught := u.caught
+	u.caught = nil
+	u.inHandler = true
+	for _, p := range caught {
+		hs := p.st.clone()
+		hs.branch(p.cond)
+		delete(hs.named, "$protected")
+		r := u.g.freshName("recovered")
+		hs.declare(r, sObj)
+		hs.assume(smtNot(smtEq(r, "(mkObj 0 0 str_empty)")))
+		hs.named["$recovered"] = Term{S: r, Sort: sObj, T: types.Universe.Lookup("any").Type()}
+		if lb := u.g.C.byID[u.contractID()+"/handler"]; lb != nil {
+			for _, c := range lb.clauses("assume") {
+				e := u.specEv(hs, u.handlerLit.Body.Lbrace+1)
+				hs.assume(e.evSpec(c.Text).S)
+				u.g.Assumed["assumed when the recover handler of "+u.name+" runs (not proved): "+c.Text] = true
+			}
+		}
+		hf := Flow{ret: flow.ret}
+		hf.next = func(s *State) {
+			var res []Term
+			for _, rv := range u.resVars {
+				res = append(res, s.vars[rv])
+			}
+			flow.ret(s, res)
+		}
+		u.execList(u.handlerLit.Body.List, hs, hf)
+	}
+	u.inHandler = false
 }
 
 func (u *Unit) newEv(st *State) *Ev {
@@ -351,9 +410,14 @@ func (u *Unit) exec(s ast.Stmt, st *State, f Flow) {
 			u.g.errorf("%s: %s: unsupported branch %v", u.name, u.g.P.pos(n), n.Tok)
 		}
 	case *ast.DeferStmt:
-		// only `defer func(){ if r := recover(); r != nil {...} }()` as handler: treated by the unit
-		if !u.handler {
+		// only `defer func(){ if r := recover(); r != nil {...} }()` at the top level of the body:
+		// from here on the path is protected (panics are caught and the handler body runs)
+		if !isRecoverHandler(n) || !u.topLevelStmt(n) {
 			u.g.errorf("%s: %s: defer outside supported pattern", u.name, u.g.P.pos(n))
+		} else {
+			u.handler = true
+			u.handlerLit = n.Call.Fun.(*ast.FuncLit)
+			st.named["$protected"] = Term{S: "true", Sort: sBool}
 		}
 		f.next(st)
 	default:
